@@ -234,22 +234,48 @@ fn run_generic<P: Protocol>(ctx: &Ctx, c: &Case) -> Vec<Viol> {
             }
             Op::Outsider { at, kind } => {
                 let at = at as usize % n;
-                let stranger: std::net::SocketAddr = "[fd00::bad]:999".parse().unwrap();
-                let bytes: Vec<u8> = match kind % 4 {
+                let mut stranger: std::net::SocketAddr = "[fd00::bad]:999".parse().unwrap();
+                if kind % 8 >= 4 {
+                    // the node is in the middle of a handshake with the sender's address (it dialled it and got no
+                    // answer yet): what arrives from there is still not from an established peer
+                    stranger = format!("[fd00::dead:{:x}]:999", at + 1).parse().unwrap();
+                    sim.connect(at, stranger);
+                }
+                let bytes: Vec<u8> = match kind % 8 {
                     0 => vec![0u8; 60],
-                    1 => {
+                    1 | 5 => {
                         // replay of an earlier data datagram, from a non-peer address
                         match sim.wire_log.iter().rev().find(|d| d.data.len() > 40 && d.data.first() != Some(&0xff) && sim.index.get(&d.dst) == Some(&at)) {
                             Some(d) => d.data.clone(),
                             None => vec![1u8; 80],
                         }
                     }
-                    2 => {
-                        // a bare frame as datagram
+                    2 | 4 => {
+                        // a bare frame / packet as datagram (message type 0 = payload, no envelope)
                         let mut v = vec![0u8];
-                        v.extend_from_slice(&eth_frame(mac(at as u8, 1), [2, 0x66, 0, 0, 0, 1], None, b"outsider"));
+                        if c.mode == MeshMode::Router {
+                            v.extend_from_slice(&ipv4_packet([10, 77, 0, 1], ip(at as u8, 1), b"outsider"));
+                        } else {
+                            v.extend_from_slice(&eth_frame(mac(at as u8, 1), [2, 0x66, 0, 0, 0, 1], None, b"outsider"));
+                        }
                         v
                     }
+                    6 => {
+                        // bare node information claiming the node's own range and a default route
+                        let mut buf = crate::sim::new_buf();
+                        vpncloud::messages::NodeInfo {
+                            node_id: [7; 16],
+                            peers: Default::default(),
+                            claims: ["0.0.0.0/0", "10.0.0.0/8"].iter().map(|r| r.parse().unwrap()).collect(),
+                            peer_timeout: Some(300),
+                            addrs: Default::default(),
+                        }
+                        .encode(&mut buf);
+                        let mut v = vec![1u8];
+                        v.extend_from_slice(buf.message());
+                        v
+                    }
+                    7 => vec![2u8],
                     _ => (0..90u8).map(|i| i.wrapping_mul(37)).collect(),
                 };
                 let mid = sim.wire_log.len();
@@ -293,7 +319,7 @@ pub fn run_case(ctx: &Ctx, c: &Case) -> Vec<Viol> {
 fn op_strategy() -> impl Strategy<Value = Op> {
     prop_oneof![
         10 => (0u8..5, prop_oneof![4 => (0u8..5).prop_map(Dst::Node), 2 => Just(Dst::Unknown), 1 => Just(Dst::Broadcast), 1 => Just(Dst::Own), 3 => (0u8..2).prop_map(Dst::Roaming)], prop_oneof![3 => 0u8..5, 2 => 0u8..20]).prop_map(|(at, dst, host)| Op::Read { at, dst, host }),
-        1 => (0u8..5, 0u8..4).prop_map(|(at, kind)| Op::Outsider { at, kind }),
+        1 => (0u8..5, 0u8..8).prop_map(|(at, kind)| Op::Outsider { at, kind }),
     ]
 }
 
@@ -320,6 +346,7 @@ pub fn run(ctx: &Ctx) {
     alphabet.push(Op::Read { at: 1, dst: Dst::Unknown, host: 3 }); // ... then behind node 1
     alphabet.push(Op::Read { at: 2, dst: Dst::Roaming(0), host: 0 }); // node 2 sends to the roaming host
     alphabet.push(Op::Outsider { at: 1, kind: 1 });
+    alphabet.push(Op::Outsider { at: 2, kind: 4 }); // bare payload from an address node 2 is dialling (pending handshake)
     alphabet.push(Op::Read { at: 0, dst: Dst::Unknown, host: 1 + 10 }); // host 1 behind node 0 speaks in VLAN 0x67 with priority bits
     alphabet.push(Op::Read { at: 1, dst: Dst::Node(0), host: 10 }); // node 1 sends to it inside that VLAN, priority bits set
     alphabet.push(Op::Read { at: 1, dst: Dst::Node(0), host: 5 }); // ... and without priority bits
